@@ -84,12 +84,12 @@ func c19Derive(ro *c19RunObs) {
 		for pi, po := range pipes {
 			// first pass: count the chunks that certainly reached ackerChan; the rest of forwarded_chunks_total
 			// resolves the ambiguous ones
-			rc0, _ := c19Reconstruct(po, p.Params, 0)
+			rc0, _ := c19Reconstruct(po, p.Params, 0, g.StopSeq)
 			amb := int(po.Cli["forwarded_chunks_total"]) - c19CountQueued(rc0.ev)
 			if amb < 0 {
 				amb = 0
 			}
-			rc, tail := c19Reconstruct(po, p.Params, amb)
+			rc, tail := c19Reconstruct(po, p.Params, amb, g.StopSeq)
 			oi := 0
 			for i, o := range p.Cfg.Outputs {
 				if o.Name == po.Output {
